@@ -17,6 +17,7 @@ Sequence lines (second generation, one seized position):
   dutch.begin   <env>  <rec> <balances> <misc>
   dutch.bid     who amt debtTwa            <ok|err|validate|panic> <rec> <balances> <misc>
   dutch.tick    now twaC actC twaD actD lbBefore lbAfter  <ok|panic> <rec> <balances> <misc>
+  dutch.tickesm (same fields)   a block while the emergency-shutdown status of the auction's app is on
   dutch.limit   who premium amt            <outcome> <rec> <balances> <misc>
   dutch.reserve who amt                    <outcome> <rec> <balances> <misc>
 rec      := `closed` | `coll=..;debt=..;bonus=..;price=..;init=..;orc=..;ord=..;start=..;end=..`
@@ -33,7 +34,8 @@ First generation, liquidated borrow (x/auction dutch_lend.go):
   (`pool` = pool account + lend module account; extra monitors proceeds_forwarded, lend_bonus_stranded)
 Monitors (on REAL values): pay_le_target receive_le_collateral books_exact (+ `_after_d7` variants, see `finish`) posted_price
 price_monotone price_in_range price_below_end_at_T
-price_in_range_slack close_distributes leftover_to_owner bid_refused reserve_draw_skipped limit_fill_overcharge start_price start_record.
+price_in_range_slack close_distributes leftover_to_owner bid_refused reserve_draw_skipped limit_fill_overcharge start_price start_record
+esm_payout_le_proceeds (+ `_after_esm_trigger` variants of the two close monitors once `TriggerEsm` has paid anything out).
 -/
 -- DRIVER: prefix=dutch ns=Comdex.Drv.Dutch
 namespace Comdex.Drv.Dutch
@@ -104,6 +106,7 @@ structure St where
   shortReal : Int := 0
   d7 : Bool := false       -- two limit bids of one premium bucket were debited in one block (known finding D7)
   overReal : Int := 0      -- limit deposits debited beyond what the auction charged (auctions.go:567-572)
+  esmOutReal : Int := 0    -- what `TriggerEsm` burned / sent to the collector while the auction stayed open (REAL balances)
   closedSeen : Bool := false
   v1 : V1St := {}
   l1 : L1St := {}
@@ -225,8 +228,10 @@ def priceMons (seq : String) (e : Env) (prev : Option Auc) (cur : Auc) (now : In
     match DutchPrice.endPrice top e.discount with
     | .ok endP =>
       (if 0 ≤ dur ∧ dur ≤ e.T then lowerMon seq dur e.T endP cur.price else []) ++
+      -- the proved band holds of EVERY live record after EVERY real block, whatever the elapsed time: past the end of the window
+      -- the record is either restarted or (price feed down, or app under emergency shutdown) left as it is — never updated
       (match DutchPrice.tau top endP e.T with
-       | .ok t => if 0 ≤ dur ∧ dur ≤ e.T ∧ 0 ≤ endP ∧ endP < top then
+       | .ok t => if 0 ≤ dur ∧ 0 ≤ endP ∧ endP < top then
                     mon seq "price_in_range_slack" (DutchPrice.monGeEndSlack top endP t cur.price) else []
        | .error _ => [])
     | .error _ => []
@@ -238,7 +243,7 @@ def priceMons (seq : String) (e : Env) (prev : Option Auc) (cur : Auc) (now : In
 
 /-- compare model and real after an op; evaluate the balance/ledger monitors on the REAL observation -/
 def finish (st : St) (seq : String) (outcomeModelOk : Bool) (outcome : String) (o : Obs) (isBid : Bool)
-    (consumed : List (String × Int)) (extraMons : List String) (chargedModel : Int := 0) : St × List String :=
+    (consumed : List (String × Int)) (extraMons : List String) (chargedModel : Int := 0) (esmTick : Bool := false) : St × List String :=
   let real_ok := outcome = "ok"
   let mo := modelObs st o
   let d1 := if isBid ∧ outcomeModelOk != real_ok then [s!"DIFF\t{seq}\toutcome model={outcomeModelOk} impl={outcome}"] else []
@@ -268,6 +273,13 @@ def finish (st : St) (seq : String) (outcomeModelOk : Bool) (outcome : String) (
   -- after a D7 event the record of this auction is corrupted for good: everything the ledger monitors say from then on
   -- (in this sequence only) carries the suffix, so that the same monitors stay meaningful everywhere else
   let sfx := if st.d7 then "_after_d7" else ""
+  -- emergency shutdown, vault-initiated auction past the end of its window: `TriggerEsm` burns / forwards what was collected but
+  -- leaves the auction open, so the next block does it again (REAL balances: collector + burn while the record stays)
+  let esmOutNow : Int :=
+    if esmTick ∧ prev.auc.isSome ∧ o.auc.isSome then ((balOf o "collector").2 - (balOf prev "collector").2) + (prev.supply - o.supply) else 0
+  let esmOutReal := st.esmOutReal + esmOutNow
+  let mEsm := mon seq "esm_payout_le_proceeds" (decide (esmOutReal ≤ realPaid - overReal))
+  let sfxC := if st.d7 then "_after_d7" else if esmOutReal ≠ 0 then "_after_esm_trigger" else ""
   let m1 := mon seq ("pay_le_target" ++ sfx) (decide (realPaid ≤ st.e.target))
   let m2 := mon seq ("receive_le_collateral" ++ sfx) (decide (realRecv ≤ st.e.coll0))
   -- while open the REAL books are exact: paid + remaining target = target, received + remaining collateral = seized
@@ -289,12 +301,12 @@ def finish (st : St) (seq : String) (outcomeModelOk : Bool) (outcome : String) (
         let proceeds := decide (realPaid - overReal + drawn + shortReal = out) && decide (out = st.e.target)
         let ownerOk := decide ((balOf o "owner").1 - (balOf b0 "owner").1 = st.e.coll0 - realRecv)
         -- recipient checked by ACCOUNT: "owner" is the account recorded in the locked vault at seizure
-        mon seq ("close_distributes" ++ sfx) (custody && proceeds && ownerOk) ++ mon seq ("leftover_to_owner" ++ sfx) ownerOk
+        mon seq ("close_distributes" ++ sfxC) (custody && proceeds && ownerOk) ++ mon seq ("leftover_to_owner" ++ sfxC) ownerOk
     else []
   let st' := { st with prev := some o, realPaid := realPaid, realRecv := realRecv, baseD := baseD, drawnReal := drawn, shortReal := shortReal, overReal := overReal,
-                       closedSeen := st.closedSeen || closing }
+                       esmOutReal := esmOutReal, closedSeen := st.closedSeen || closing }
   let st' := if d2.isEmpty then st' else adopt st' o
-  (st', d1 ++ d2 ++ m0 ++ mOver ++ mB ++ m1 ++ m2 ++ m3 ++ extraMons)
+  (st', d1 ++ d2 ++ m0 ++ mOver ++ mEsm ++ mB ++ m1 ++ m2 ++ m3 ++ extraMons)
 
 def pureLine (seq : String) (m : Except Unit Int) (o v : String) (okTag : String := "ok") : List String :=
   let ms := match m with | .ok x => s!"{okTag}\t{x}" | .error _ => "fail\t-"
@@ -691,11 +703,14 @@ def handle (st : St) (seq : String) (f : List String) : St × List String :=
       let st1 := { st with s := orElse st.s res }
       finish st1 seq okM o obs true [] (pm ++ refused)
     | _, _, _, _ => (st, [s!"BAD\t{seq}\tbid"])
-  | ["dutch.tick", now, twaC, actC, twaD, actD, lb0, lb1, o, r, b, m] =>
+  | [tickKind, now, twaC, actC, twaD, actD, lb0, lb1, o, r, b, m] =>
+    if tickKind ≠ "dutch.tick" ∧ tickKind ≠ "dutch.tickesm" then (st, [s!"BAD\t{seq}\tunknown dutch line"]) else
     match parseInt? now, parseInt? twaC, parseBool? actC, parseInt? twaD, parseBool? actD, parseLB lb0, parseLB lb1, parseObs r b m with
     | some now, some twaC, some actC, some twaD, some actD, some lb0, some lb1, some obs =>
       let lbids : List LBid := lb0.filterMap fun (p, n, a) => (bidderNo n).map fun w => (p, w, a)
-      let s' := step st.e st.s (.tick now twaC actC twaD actD lbids)
+      -- `dutch.tickesm`: the app's emergency-shutdown status was on in this block (auctions.go:153-182)
+      let s' := if tickKind = "dutch.tickesm" then step st.e st.s (.tickEsm now twaC actC twaD actD lbids)
+                else step st.e st.s (.tick now twaC actC twaD actD lbids)
       let consumed : List (String × Int) := lb0.filterMap fun (p, n, a) =>
         let after := match lb1.find? (fun (p', n', _) => p' = p ∧ n' = n) with | some (_, _, a') => a' | none => 0
         if a - after ≠ 0 then some (n, a - after) else none
@@ -714,7 +729,7 @@ def handle (st : St) (seq : String) (f : List String) : St × List String :=
         if a - after > 0 then some (p, n) else none
       let d7now := debited.any fun (p, n) => debited.any fun (p', n') => p' = p ∧ n' ≠ n
       let st1 := { st with s := s', d7 := st.d7 || d7now }
-      let (st2, outs) := finish st1 seq true "ok" obs false consumed pm (s'.paid - st.s.paid)
+      let (st2, outs) := finish st1 seq true "ok" obs false consumed pm (s'.paid - st.s.paid) (tickKind = "dutch.tickesm")
       (st2, dpanic ++ outs)
     | _, _, _, _, _, _, _, _ => (st, [s!"BAD\t{seq}\ttick"])
   | ["dutch.limit", who, prem, amt, o, r, b, m] =>
